@@ -14,7 +14,8 @@ Definition upd_at (l : vec) (idx : list nat) (f : Q -> Q) : vec :=
 Definition scaled (name node0 : string) (minS maxS normS fixc dur : Q) (a : aprob) : option aprob :=
   let P := ap_lp a in
   let n := nvars P in
-  match ap_map a with [] => None | _ =>          (* empty mapping: the code raises KeyError *)
+  (* a base asset without any step in the grid (empty mapping) leaves the scale variable alone; it is the LAST variable
+     (assets.py, repaired in 688f024: the mapping row used to be labelled max(index)+1, NaN for an empty mapping) *)
   let Idisp := dedup_keep_first (map m_var (filter is_d (ap_map a))) in
   let nD := List.length Idisp in
   (* the tie rows use an identity on the first nD columns plus the scale column: the shapes only
@@ -25,8 +26,6 @@ Definition scaled (name node0 : string) (minS maxS normS fixc dur : Q) (a : apro
   let rowsL := map (fun k => {| r_a := [(k, 1); (n, Qred (- nth (nth k Idisp 0%nat) (lp_l P) 0 / normS))]; r_t := RL; r_b := 0 |}) (seq 0 nD) in
   let l' := upd_at (lp_l P) Idisp (fun v => Qred (qmin0 v * maxS / normS)) in
   let u' := upd_at (lp_u P) Idisp (fun v => Qred (qmax0 v * maxS / normS)) in
-  let top := fold_left Nat.max (map m_var (ap_map a)) 0%nat in
   Some {| ap_lp := Build_lp (lp_c P ++ [Qred (fixc * dur)]) (l' ++ [minS]) (u' ++ [maxS]) (rows1 ++ rowsU ++ rowsL);
           ap_map := map (fun r => Build_mrow (m_var r) name (m_node r) (m_type r) (m_step r) (m_factor r) (m_name r) (m_bool r)) (ap_map a)
-                    ++ [Build_mrow (S top) name (Some node0) "size" 0 1 "scale" false] |}
-  end.
+                    ++ [Build_mrow n name (Some node0) "size" 0 1 "scale" false] |}.
